@@ -1,5 +1,6 @@
 CONSTANTS
   Wrapped <- WrappedAsCoded
+  ParseReports <- ReportsSyntax
 INIT TInit
 NEXT TNext
 INVARIANT Mark
